@@ -17,7 +17,7 @@ Non-trivial = a state is mutated while a clone of it is alive and the mutation i
     assumptions: &["the non-deterministic / external words are stubbed (the quantifier excludes them)", "rendering is by content: bit-strings as bit sequences, not backing buffers"],
     max_len: 900,
     quick_cases: 40_000,
-    thorough_cases: 400_000,
+    thorough_cases: 150_000,
     case,
     systematic: None,
     both_profiles_quick: false,
